@@ -37,7 +37,7 @@ pub fn replay(cases: &str, verdicts: &str) {
         v.cases += 1;
         if v.cases % 200 == 1 { v.sample(c.clone()); }
         let var = num(&c["v"]);
-        let alpha = c["alpha"].as_i64().unwrap() as f64;
+        let alpha = num(&c["alpha"]);
         let l = num(&c["l"]);
         let rq = guard(|| RQKernel::new(var, alpha, l)).expect("valid parameters");
         let rbf = guard(|| RBFKernel::new(var, l)).expect("valid parameters");
